@@ -252,6 +252,25 @@ func genC20(rng *hx.Rng, tier string, w *hx.Writer) error {
 			}
 		}
 		both("the message extended by one byte", pub, append(append([]byte{}, msg...), 0), sig)
+		// algebraic relatives of the genuine signature: the negated response l - s, the negated nonce
+		// point -R, both, the response of the negated key, s +/- 1
+		if len(sig) == 64 {
+			sInt := leInt(sig[32:])
+			negS := leBytes(new(big.Int).Mod(new(big.Int).Neg(sInt), EdL), 32)
+			negR := append([]byte{}, sig[:32]...)
+			negR[31] ^= 0x80
+			both("R || (l - s)", pub, msg, append(append([]byte{}, sig[:32]...), negS...))
+			both("(-R) || s", pub, msg, append(append([]byte{}, negR...), sig[32:]...))
+			both("(-R) || (l - s)", pub, msg, append(append([]byte{}, negR...), negS...))
+			both("R || (s + 1)", pub, msg, append(append([]byte{}, sig[:32]...), leBytes(new(big.Int).Mod(new(big.Int).Add(sInt, big.NewInt(1)), EdL), 32)...))
+			negA := append([]byte{}, pub...)
+			negA[31] ^= 0x80
+			both("the genuine signature under the negated key", negA, msg, sig)
+			// equality of points is equality of elements: P and -P differ
+			if A.Equal(edSuite.Point().Neg(A)) || !A.Equal(edSuite.Point().Neg(edSuite.Point().Neg(A))) {
+				problems = append(problems, "Equal does not tell a point from its negation")
+			}
+		}
 		oracle := "ok"
 		if len(problems) > 0 {
 			if len(problems) > 3 {
